@@ -11,6 +11,7 @@ sys.path.insert(0, os.getcwd())
 from vlib import driver
 driver.write_registry()
 PY
-(cd kani-lib && cargo kani --only-codegen >/dev/null 2>&1 || true)
+# builds the dependencies of the harness crate for Kani once (one tiny harness is enough)
+(cd kani-lib && cargo kani --only-codegen --exact --harness h_alu::alu_f00_addh >/dev/null 2>&1 || true)
 (cd kani-lib && cargo build --offline --bin replay --target-dir target-native >/dev/null 2>&1 || true)
 echo "setup done"
